@@ -1,1 +1,75 @@
-import RaftLogModel.Spec.RefLog
+/-
+C16 — No argument makes a public operation panic.
+
+Every panic site of the implementation that can be reached from the public
+write API is an explicit `Res.panic` branch of the model (`next_log_index`
+overflow, `last_segment` on a record-less chunk). The theorems below show
+those branches are unreachable for *every* argument value as long as no log
+index equals u64::MAX (`smallId`): that single excluded class is the known
+finding `C16/index-u64-max` (witness: `c16_witness_u64_max`).
+`_partial` = the statement of the property minus exactly that class.
+-/
+import RaftLogModel.Proofs.NoPanic
+import RaftLogModel.Model.Sys
+namespace RaftLog
+
+/-- One call: never a panic, and the invariant that makes the next call safe
+is kept — for all vote/commit arguments, all truncate indexes (0, below the
+purge point, u64::MAX …), all purge and append ids with `index ≠ u64::MAX`. -/
+theorem c16_call_no_panic_partial (s : Store) (fsHas : Nat → Bool) (op : Op)
+    (hp : PanicFree s) (hop : op.small) :
+    (∀ m, (s.call fsHas op).1 ≠ .panic m) ∧ PanicFree (s.call fsHas op).2.1 :=
+  call_ok fsHas op hp hop
+
+/-- A freshly opened store satisfies the invariant. -/
+theorem c16_fresh_panicFree (cfg : Cfg) : ∃ s, (Sys.fresh cfg).store = some s ∧ PanicFree s := by
+  have h : ∃ s, (Sys.fresh cfg).store = some s ∧ s.openOffsets.length = 2 ∧ s.st = {} ∧ s.log = [] := by
+    simp [Sys.fresh, Sys.open, openStore, Fs.linkedIds, openLoop, emptyStore, Fs.has, Fs.find]
+  obtain ⟨s, h1, h2, h3, h4⟩ := h
+  refine ⟨s, h1, ⟨by omega, by rw [h3]; trivial, by rw [h3]; trivial, by rw [h4]; intro e he; cases he⟩⟩
+
+/-- Every history of calls with such arguments from a fresh store: no call in
+it panics (by induction over the history). -/
+theorem c16_history_no_panic_partial (fsHas : Nat → Bool) (ops : List Op) (s : Store)
+    (hp : PanicFree s) (hops : ∀ op ∈ ops, op.small) :
+    ∀ pre op post, ops = pre ++ op :: post →
+      ∀ m, ((pre.foldl (fun s o => (s.call fsHas o).2.1) s).call fsHas op).1 ≠ .panic m := by
+  intro pre op post hsplit
+  have hpre : PanicFree (pre.foldl (fun s o => (s.call fsHas o).2.1) s) := by
+    have hsm : ∀ o ∈ pre, o.small := fun o ho => hops o (by rw [hsplit]; exact List.mem_append_left _ ho)
+    clear hsplit
+    induction pre generalizing s with
+    | nil => exact hp
+    | cons o rest ih =>
+      simp only [List.foldl_cons]
+      exact ih _ (call_ok fsHas o hp (hsm o List.mem_cons_self)).2
+        (fun o' ho' => hsm o' (List.mem_cons_of_mem _ ho'))
+  exact (call_ok fsHas op hpre (hops op (by rw [hsplit]; simp))).1
+
+/-- `read(from, to)` with `to ≤ from` (inverted or empty range) yields nothing. -/
+theorem c16_read_inverted_empty (s : Store) (fs : Fs) (a b : Nat) (h : b ≤ a) :
+    (s.read fs a b).1 = [] := by
+  unfold Store.read
+  have : s.log.filter (fun e => decide (a ≤ e.1) && decide (e.1 < b)) = [] := by
+    apply List.filter_eq_nil_iff.mpr
+    intro e _
+    simp
+    omega
+  simp [this, readLoop]
+
+/-- `truncate` below or at the purge point is an error, never a panic: the
+`index - 1` of the implementation is guarded (fix of D4). -/
+theorem c16_truncate_zero_is_error (s : Store) (fsHas : Nat → Bool) (p : LogId)
+    (hp : s.st.purged = some p) (hsm : smallId p) :
+    (s.call fsHas (.truncate 0)).1 = .err .indexNotFound := by
+  have h : p.index + 1 < U64 := hsm
+  simp [Store.call, hp, nextIndexChecked, h]
+
+/-- The excluded class is real: a purge at index u64::MAX panics in the model
+(and in the implementation: corpus/C16/purge-u64-max.script). -/
+theorem c16_witness_u64_max :
+    ((emptyStore {}).appendAndApply (fun _ => false) (.purgeUpto ⟨1, 2 ^ 64 - 1⟩)).1
+      = .panic "next_log_index overflow (apply)" := by
+  decide
+
+end RaftLog
